@@ -362,8 +362,12 @@ func firstWords(s string, n int) string {
 
 func transContext(r *rng.R) dec.Ctx {
 	p := int64(1 + r.Intn(40))
-	if r.Chance(1, 5) {
+	switch r.Intn(5) {
+	case 0:
 		p = int64(41 + r.Intn(20))
+	case 1:
+		// few digits: the fixed number of guard digits is proportionally smallest
+		p = int64(1 + r.Intn(6))
 	}
 	c := gen.ContextP(r, p)
 	if c.Emax < 40 && r.Chance(3, 4) {
@@ -414,6 +418,24 @@ func expOperand(r *rng.R, c dec.Ctx) dec.D {
 }
 
 func lnOperand(r *rng.R, c dec.Ctx) dec.D {
+	if r.Chance(1, 10) {
+		// just outside 1 +/- 0.1, where |ln x| is still below 0.1: a logarithm
+		// assembled as ln(x/10) + ln(10) loses a leading digit to cancellation
+		// (uniformly random digits: the size of the error depends on all of them)
+		lead := r.Range(1100000, 1106000)
+		if r.Chance(1, 4) {
+			lead = r.Range(894000, 906000)
+		}
+		v := new(big.Int).Add(new(big.Int).Mul(big.NewInt(lead), dec.Pow10(9)), big.NewInt(r.Range(0, 999999999)))
+		e := int64(-15)
+		if r.Bool() {
+			// fewer digits
+			k := int64(1 + r.Intn(12))
+			v.Quo(v, dec.Pow10(k))
+			e += k
+		}
+		return dec.D{Form: dec.Finite, C: v, E: e}
+	}
 	switch r.Pick(30, 25, 15, 15, 15) {
 	case 0: // 1 +/- 10^-k
 		k := int64(1 + r.Intn(int(2*c.P)+1))
@@ -641,6 +663,13 @@ func runC12(r *mon.Run) {
 		transCase(t, "value", "ln", dec.Ctx{P: 4, Emin: 0, Emax: 50, Mode: "half_down"}, x2, dec.D{})
 		x3, _ := dec.Parse("58766946476195139152733326900E-28")
 		transCase(t, "value", "ln", dec.Ctx{P: 58, Emin: 0, Emax: 58, Mode: "half_even"}, x3, dec.D{})
+		// fixed: Ln lost a digit to cancellation for 1.1 < x < e^0.1
+		for _, m := range []string{"half_even", "down", "half_up"} {
+			x5, _ := dec.Parse("110129690E-8")
+			transCase(t, "value", "ln", dec.Ctx{P: 4, Emin: -383, Emax: 384, Mode: m}, x5, dec.D{})
+			x6, _ := dec.Parse("110155080E-8")
+			transCase(t, "value", "ln", dec.Ctx{P: 2, Emin: -383, Emax: 384, Mode: m}, x6, dec.D{})
+		}
 		// fixed: Pow lost accuracy with integer exponents beyond about 1e10
 		for _, xy := range [][2]string{{"10000000001E-10", "9E10"}, {"10000000000000001E-16", "7E16"}, {"10000000000000001E-16", "70000000000000000E0"}, {"99999999999999E-14", "-3E14"}} {
 			px, _ := dec.Parse(xy[0])
